@@ -78,7 +78,8 @@ def run(ctx):
                         "distinct by (optimizer, seed, constraint)" % BOUND)
     n_fast, n_slow = (72, 4) if ctx.quick else (540, 40)
     specs = sweep.sweep_specs(ctx, "c08", n_fast, n_slow, constraint=1.0, ckinds=["parity", "band", "mask", "halfspace", "parity"]) \
-        + c02.special_specs(ctx, 16 if ctx.quick else 120) + directed_specs(ctx, 12 if ctx.quick else 80)
+        + c02.special_specs(ctx, 16 if ctx.quick else 120) + directed_specs(ctx, 12 if ctx.quick else 80) \
+        + sweep.extreme_specs(ctx, "c08", constraint=1.0, rounds=(1 if ctx.quick else 4))
     for spec in specs:
         if spec.get("feasible") is None:
             continue
